@@ -167,3 +167,33 @@ Proof.
       eapply rf_step; [exact IH | exact Hin | apply in_or_app; right; left; reflexivity].
 Qed.
 End L2.
+
+(* a grammar accepted under strict checking is reduced: every nonterminal of its rules derives a terminal string and is
+   reached from the axiom (both in the sense of the recognition theory) *)
+Theorem strict_accepted_is_reduced terms rules : read_model true terms rules = 0%Z ->
+  Viable.productive (cg terms rules) /\
+  forall x, In x (nonterms terms rules) -> exists p, reach (cg terms rules) n_axiom p x.
+Proof.
+  intros H. pose proof (strict_accepted_is_productive terms rules H) as HP. split; [exact HP|].
+  apply ok_iff_well_formed in H. unfold well_formed_b in H. rewrite forallb_forall in H.
+  assert (D : forall c, In c [4; 5; 6; 7; 8; 9; 10; 11; 12; 13; 14; 15; 16]%Z -> defect_b true terms rules c = false).
+  { intros c Hc. apply negb_true_iff. apply H. exact Hc. }
+  assert (H4 := D 4%Z). assert (H9 := D 9%Z). assert (H14 := D 14%Z).
+  unfold defect_b in H4, H9, H14. simpl in H4, H9, H14.
+  specialize (H4 ltac:(tauto)). specialize (H9 ltac:(tauto)). specialize (H14 ltac:(tauto)).
+  apply orb_false_iff in H4. destruct H4 as [H4 H4r]. apply orb_false_iff in H4. destruct H4 as [H4 _].
+  apply orb_false_iff in H4. destruct H4 as [_ H4a].
+  assert (Hax : is_term terms n_axiom = false).
+  { unfold is_term. rewrite H4a. reflexivity. }
+  rewrite existsb_false_iff in H9. rewrite existsb_false_iff in H14.
+  assert (Hlhs : forall s rhs0, In (s, rhs0) (arules rules) -> is_term terms s = false).
+  { intros s rhs0 Hin. unfold arules in Hin. destruct Hin as [E|Hin]; [injection E as <- _; exact Hax|].
+    apply in_app_or in Hin. destruct Hin as [Hin|Hin].
+    - apply in_map_iff in Hin. destruct Hin as (r0 & E & Hr0). injection E as <- _. apply H9. exact Hr0.
+    - destruct (has_error_rule rules); [contradiction|]. destruct Hin as [E|[]]. injection E as <- _. exact Hax. }
+  intros x Hx. specialize (H14 _ Hx). apply negb_false_iff in H14.
+  apply (reachable_spec rules) in H14.
+  assert (Hxt : is_term terms x = false).
+  { apply nonterms_in in Hx. destruct Hx as [->|[_ Hx]]; auto. }
+  apply (reachable_reach terms rules Hlhs HP Hax x Hxt). exact H14.
+Qed.
